@@ -1648,6 +1648,20 @@ func emptinessOf(t Term) (Term, bool, bool) {
 	return X, whenEmpty == pol, true
 }
 
+// emptyCtorStep: the step creates an empty container (NewList(), NewObject(), the registration Init of a literal).
+func (v *sxView) emptyCtorStep(s Step) bool {
+	if s.Kind != "call" || s.Call == nil || s.Call.Fun == nil || s.Call.Fun.Pkg() != v.c.Types {
+		return false
+	}
+	switch s.Call.Fun.Name() {
+	case "NewList", "NewObject":
+		return len(s.Call.Args) == 0
+	case "Init":
+		return true
+	}
+	return false
+}
+
 // eraseEpochs: the term with its memory stamps removed (for comparing what two paths denote when nothing was written in between).
 func eraseEpochs(t Term) Term {
 	return mapBU(t, func(u Term) Term {
@@ -1693,6 +1707,9 @@ func (v *sxView) emptyGuardNorm(paths []*Path) []*Path {
 			onlyConds := true
 			for k, s := range pf.Steps {
 				if s.Kind != "cond" {
+					if v.emptyCtorStep(s) {
+						continue // creating the (empty) result is what the general path does first, too
+					}
 					onlyConds = false
 					break
 				}
@@ -1744,8 +1761,16 @@ func (v *sxView) emptyGuardNorm(paths []*Path) []*Path {
 				}
 				same := true
 				for k := 0; k < gi; k++ {
-					if p.Steps[k].Kind != "cond" || !sameTerm(p.Steps[k].Cond.T, pf.Steps[k].Cond.T) || p.Steps[k].Cond.Truth != pf.Steps[k].Cond.Truth {
+					a, b := p.Steps[k], pf.Steps[k]
+					switch {
+					case a.Kind != b.Kind:
 						same = false
+					case a.Kind == "cond":
+						same = sameTerm(a.Cond.T, b.Cond.T) && a.Cond.Truth == b.Cond.Truth
+					default:
+						same = a.Node == b.Node
+					}
+					if !same {
 						break
 					}
 				}
@@ -1766,7 +1791,12 @@ func (v *sxView) emptyGuardNorm(paths []*Path) []*Path {
 			exhausted := -1
 			for _, i := range slow {
 				p := paths[i]
-				rest := p.Steps[gi+1:]
+				var rest []Step
+				for _, st := range p.Steps[gi+1:] {
+					if !v.emptyCtorStep(st) {
+						rest = append(rest, st)
+					}
+				}
 				if len(rest) != 1 || rest[0].Kind != "loop" || rest[0].Loop == nil {
 					continue
 				}
@@ -1840,7 +1870,8 @@ func (v *sxView) emptyGuardNorm(paths []*Path) []*Path {
 						}
 						return nil, false
 					}))
-					if !sameTerm(eraseEpochs(a), eraseEpochs(simplify(pf.Vals[k]))) {
+					b := simplify(pf.Vals[k])
+					if !sameTerm(eraseEpochs(a), eraseEpochs(b)) && !(freshEmptyContainer(v.c, a, true) && freshEmptyContainer(v.c, b, true)) && !(freshEmptyContainer(v.c, a, false) && freshEmptyContainer(v.c, b, false)) {
 						eq = false
 					}
 				}
